@@ -98,7 +98,11 @@ class FakeManager:
         # out in the very turn the connection is selected (on the Leader:
         # right behind its KCM, before the Follower has selected)
         for r in getattr(self, "early", ()):
-            c.send_record(r)
+            try:
+                c.send_record(r)
+            except Exception as e:
+                self.early_error = (type(r).__name__, e)
+                break
 
     def connector_connection_lost(self):
         self.lost += 1
@@ -263,7 +267,11 @@ def run_two_sessions(seed, tape, opts):
                     def send(pr=pr, d=d, tx=tx):
                         r = pr["recs"][d][pr["sent"][d]]
                         pr["sent"][d] += 1
-                        tx.conn.send_record(r)
+                        try:
+                            tx.conn.send_record(r)
+                        except Exception as e:
+                            V("C12.send_record_raised", "send_record accepts "
+                              "every record", "%s -> %r" % (_short(r), e))
                     evs.append(("send:%d:%s" % (i, d), send))
         return evs
     sim.app_events = app_events
@@ -294,6 +302,12 @@ def run_two_sessions(seed, tape, opts):
     sim.run(30000, until=lambda: bool(viol) or complete(), max_time=100)
     sim.run(500, max_time=5)
     oracle()
+    for pr in pairs:
+        for mg in (pr["ML"], pr["MF"]):
+            if getattr(mg, "early_error", None):
+                V("C12.send_record_raised", "send_record accepts every "
+                  "record", "%s (sent in the selection turn) -> %r" %
+                  mg.early_error)
     if not viol:
         for i, pr in enumerate(pairs):
             if not (pr["ML"].made and pr["MF"].made):
@@ -445,6 +459,10 @@ def run_one(seed, tape, opts):
             V("C12.no_connection", "an unmanipulated pair completes the L2 "
               "handshake", "L made=%d F made=%d topo %s" % (ML.made, MF.made,
                                                             topo))
+    for mg in (ML, MF):
+        if getattr(mg, "early_error", None):
+            V("C12.send_record_raised", "send_record accepts every record",
+              "%s (sent in the selection turn) -> %r" % mg.early_error)
     if opts.get("wrong_psk") and (ML.made or MF.made):
         V("C12.wrong_key_selected", "a handshake not produced with the "
           "dilation key never reaches the manager", "L made=%d F made=%d" %
